@@ -177,7 +177,7 @@ def split(seq, cuts):
 @st.composite
 def cases(draw):
     schema_js = draw(gen_schema.schemas(max_classes=3, max_assocs=3, max_extra_attrs=1,
-                                        key_types=['UNIQUE_ID', 'INTEGER', 'STRING', 'UNIQUE_ID']))
+                                        key_types=['UNIQUE_ID', 'INTEGER', 'STRING', 'UNIQUE_ID'], shared_refs=True))
     rows = [list(r) for r in draw(popgen.dirty_rows(schema_js, max_rows=3))]
     nstm = len(schema_statements(schema_js)) + len(rows)
     perms = [draw(st.permutations(list(range(nstm)))) for _ in range(draw(st.integers(2, 4)))]
@@ -404,6 +404,12 @@ def run_case(case, res=None, tier='quick'):
         cl = ['api:' + tag] + ['shape-' + a['shape'] for a in sc.assocs]
         if any(len(sh.links[i]) for i in range(len(sc.assocs))):
             cl.append('has-links')
+        for cdef in sc.classes:
+            if any(len(v) > 1 for v in sc.referentials(cdef['name']).values()):
+                cl.append('shared-referential')
+                for i, a in enumerate(sc.assocs):
+                    if a['src'] == cdef['name'] and sh.links[i] and any(len(sc.referentials(cdef['name'])[k]) > 1 for k in a['src_keys']):
+                        cl.append('shared-referential-linked')
         res.case([schema_js, rows], nt, sample={'statements': allstm} if nt and len(repr(allstm)) < 1800 else None,
                  classes=sorted(set(cl)))
 
